@@ -63,8 +63,12 @@ def build_gev(profile="checked"):
 
                 shutil.copy(src_lock, os.path.join(harness, "Cargo.lock"))
                 p = subprocess.run(cmd, cwd=harness, env=cargo_env(), stdout=subprocess.PIPE, stderr=subprocess.PIPE, text=True)
+        if p.returncode != 0 and ("ld returned" in p.stderr or "undefined hidden symbol" in p.stderr or "incremental" in p.stderr):
+            # a build that was killed half-way leaves inconsistent incremental artefacts: rebuild the three crates once
+            subprocess.run(["cargo", "clean", "--offline", "-p", "gev", "-p", "glass-easel-template-compiler", "-p", "glass-easel-stylesheet-compiler"] + (["--release"] if profile == "shipped" else []), cwd=harness, env=cargo_env(), stdout=subprocess.PIPE, stderr=subprocess.PIPE, text=True)
+            p = subprocess.run(cmd, cwd=harness, env=cargo_env(), stdout=subprocess.PIPE, stderr=subprocess.PIPE, text=True)
         if p.returncode != 0:
-            sys.stderr.write(p.stderr[-6000:])
+            sys.stderr.write(p.stderr[-1500:])
             raise Inconclusive("cargo build of the driver failed (the working tree does not compile with hooks on?)")
         dt = time.time() - t0
         if dt > 5:
